@@ -20,6 +20,10 @@
 #include "polyio.h"
 #include <assignment.h>
 #include <math.h>
+#include <unistd.h>
+#include <signal.h>
+#include <sys/wait.h>
+#include <sanitizer/lsan_interface.h>
 
 #define NS 6
 #define NP 3
@@ -29,14 +33,15 @@ static lp_polynomial_t* P[NP];
 static const lp_value_t* S(int i) { return lp_assignment_get_value(M, pio_x[i]); }
 
 /* raw representation; the structural invariants valio.h's printer takes for granted are checked first */
+static int bad_rep = 0;   /* a structurally corrupt value was printed: the history stops (the library would only crash) */
 static void print_rep(const lp_value_t* v) {
   if (v->type == LP_VALUE_ALGEBRAIC) {
     const lp_algebraic_number_t* a = &v->value.a;
-    if (a->f && a->I.is_point) { printf("BAD:polynomial-with-point-interval:"); vio_print_upoly(a->f); putchar(':'); vio_print_dy(&a->I.a); return; }
-    if (!a->f && !a->I.is_point) { printf("BAD:interval-without-polynomial:"); vio_print_dy(&a->I.a); return; }
-    if (a->f && !(a->I.a_open && a->I.b_open)) { printf("BAD:closed-end-on-isolating-interval"); return; }
-    if (!a->f && (a->I.a_open || a->I.b_open)) { printf("BAD:open-point"); return; }
-    if (!a->f && (a->sgn_at_a || a->sgn_at_b)) { printf("BAD:point-with-sign-cache:%d:%d", a->sgn_at_a, a->sgn_at_b); return; }
+    if (a->f && a->I.is_point) { bad_rep = 1; printf("BAD:polynomial-with-point-interval:"); vio_print_upoly(a->f); putchar(':'); vio_print_dy(&a->I.a); return; }
+    if (!a->f && !a->I.is_point) { bad_rep = 1; printf("BAD:interval-without-polynomial:"); vio_print_dy(&a->I.a); return; }
+    if (a->f && !(a->I.a_open && a->I.b_open)) { bad_rep = 1; printf("BAD:closed-end-on-isolating-interval"); return; }
+    if (!a->f && (a->I.a_open || a->I.b_open)) { bad_rep = 1; printf("BAD:open-point"); return; }
+    if (!a->f && (a->sgn_at_a || a->sgn_at_b)) { bad_rep = 1; printf("BAD:point-with-sign-cache:%d:%d", a->sgn_at_a, a->sgn_at_b); return; }
   }
   vio_print(v);
 }
@@ -143,35 +148,55 @@ static void do_op(char* tok) {
   printf("UNKNOWN-OP");
 }
 
+static void run_case(void) {
+  if (vntok < 3 + NS + NP || !is_op("c09")) { printf("UNKNOWN"); return; }
+  alarm(15);   /* watchdog: a library call that never returns kills this case (= a crash, no partial line) */
+  char mode = vtok[1][0];
+  M = lp_assignment_new(pio_db);
+  for (int i = 0; i < NS; ++i) {
+    lp_value_t v;
+    if (!vio_parse(&v, vtok[2 + i])) { printf("UNKNOWN bad pool token"); return; }
+    set_slot(i, &v); lp_value_destruct(&v);
+  }
+  for (int k = 0; k < NP; ++k) P[k] = pio_new(vtok[2 + NS + k]);
+  bad_rep = 0;
+  printf("init |"); print_reps();
+  int step = 0;
+  for (int t = 3 + NS + NP; t < vntok; ++t, ++step) {
+    printf(" #");
+    do_op(vtok[t]);
+    printf(" |"); print_reps();
+    if (bad_rep) { printf(" ABORT"); break; }
+    printf(" |"); battery(mode == 'C' || (mode == 'M' && step % 3 != 0));
+    printf(" |"); print_reps();
+    if (bad_rep) { printf(" ABORT"); break; }
+  }
+  for (int k = 0; k < NP; ++k) lp_polynomial_delete(P[k]);
+  lp_assignment_delete(M);
+  /* everything of this case has been released: what is still allocated and unreachable was leaked by the library
+     (e.g. a cache of remembered intervals that was never restored and freed) */
+  if (__lsan_do_recoverable_leak_check()) printf(" LEAK");
+}
+
 int main(void) {
-  /* a whole case is buffered and flushed by end_case(): a crash in the middle leaves NO partial line behind */
+  /* a whole case is buffered and only flushed when it is complete: a crash in the middle leaves NO partial line */
   static char obuf[1 << 25];
   setvbuf(stdout, obuf, _IOFBF, sizeof obuf);
   pio_init(lp_Z);
   while (next_case()) {
-    if (vntok < 3 + NS + NP || !is_op("c09")) { printf("UNKNOWN"); end_case(); continue; }
-    char mode = vtok[1][0];
-    M = lp_assignment_new(pio_db);
-    int ok = 1;
-    for (int i = 0; i < NS; ++i) {
-      lp_value_t v;
-      if (!vio_parse(&v, vtok[2 + i])) { ok = 0; break; }
-      set_slot(i, &v); lp_value_destruct(&v);
+    /* every case runs in its own child process: leaks, corrupted heaps and hangs of one history cannot reach the next.
+       If the child does not end normally the driver dies too, without a line for this case (= crash of this case). */
+    fflush(stdout);
+    pid_t pid = fork();
+    if (pid < 0) { perror("fork"); return 3; }
+    if (pid == 0) { run_case(); putchar('\n'); fflush(stdout); _exit(0); }
+    int st = 0;
+    waitpid(pid, &st, 0);
+    if (!(WIFEXITED(st) && WEXITSTATUS(st) == 0)) {
+      fprintf(stderr, "c09: the case did not end normally (wait status 0x%x%s)\n", st,
+              WIFSIGNALED(st) && WTERMSIG(st) == SIGALRM ? ": watchdog, a library call did not return within 15 s" : "");
+      _exit(97);
     }
-    if (!ok) { printf("UNKNOWN bad pool token"); lp_assignment_delete(M); end_case(); continue; }
-    for (int k = 0; k < NP; ++k) P[k] = pio_new(vtok[2 + NS + k]);
-    printf("init |"); print_reps();
-    int step = 0;
-    for (int t = 3 + NS + NP; t < vntok; ++t, ++step) {
-      printf(" #");
-      do_op(vtok[t]);
-      printf(" |"); print_reps();
-      printf(" |"); battery(mode == 'C' || (mode == 'M' && step % 3 != 0));
-      printf(" |"); print_reps();
-    }
-    for (int k = 0; k < NP; ++k) lp_polynomial_delete(P[k]);
-    lp_assignment_delete(M);
-    end_case();
   }
   pio_done();
   free(vline);
